@@ -24,11 +24,19 @@ def po_star_names(d, n=0):
             | {p[0] for p in pos[n:] if p[1] == 'PO'})
 
 
+class SizedPartial(functools.partial):
+    """a functools.partial subclass with a length: falsy while it binds no positional argument"""
+    def __len__(self):
+        return len(self.args)
+
+
 def real_partial_result(d, n, kw, auto):
     """signature of a real functools.partial object, described with callable ids:
     the function is 100, the partial object 200."""
     f = real_function(d)
-    p = functools.partial(f, *([0] * n), **{name_of(k): v for k, v in kw})
+    # every second object is an instance of a partial subclass whose truth value may be False
+    cls = SizedPartial if (n + len(kw) + len(d['params'])) % 2 == 0 else functools.partial
+    p = cls(f, *([0] * n), **{name_of(k): v for k, v in kw})
     # fresh id tables per call: f -> 100, p -> 200
     from core import _FN, _FN_ID
     _FN_ID[id(f)] = 100
@@ -108,7 +116,10 @@ def decide(triples):
             # **kwargs parameter is absorbed by **kwargs, but the result cannot hold a keyword-only
             # parameter and a star parameter of one name
             reqs.append('partialnone %s %d %s' % (tok_sig(c.d), c.n, tok_names([k for k in names if k not in stars])))
-            meta.append((c, i, 'star-named'))
+            # (the model reproduces the known failure: where the MODEL returns a signature -- e.g. the
+            # star parameter of that name is removed because a positional-or-keyword parameter is
+            # bound by keyword -- a ValueError of the implementation is not that finding)
+            meta.append((c, i, 'star-named' if (m is None or m[0] == 'err') else 'none'))
             continue
         if set(names) & po_star_names(c.d, c.n):
             continue
@@ -141,6 +152,8 @@ def gen(ctx):
     U2 = universe(2, ['a', 'b'])
     U3 = universe(3, ['a', 'b', 'c'])
     sigs = U2 + (rng.sample(U3, 250) if ctx.quick else U3) + [random_sig(rng, 'abcde', 5) for _ in range(100 if ctx.quick else 2000)]
+    # names of more than one letter, some spelled with the letters that name other parameters
+    sigs = sigs + [random_sig(rng, ['a', 'b', 'ab', 'ba', 'self', 'e', 'f', 's'], 4) for _ in range(60 if ctx.quick else 600)]
     fz = id_of_name('z')
     cases = []
     for ps in sigs:
@@ -174,6 +187,14 @@ def callee_g(x, y, *, z=1):
     return ('g', x, y, z)
 def w_glob(a, *args, **kwargs):
     return callee_g(*args, **kwargs)
+def w_comp(fn, *args, **kwargs):
+    return fn(len(args), *args, **kwargs)
+def w_skip(ts, func, *a, **k):
+    return func(*a, **k)
+def w_comp_kw(fn, *args, **kwargs):
+    return fn(*args, stamp=len(args), **kwargs)
+def w_skip_kw(func, *a, stamp, **k):
+    return func(*a, **k)
 class Plain(object):
     def run(self, wrapped, *args, **kwargs):
         return wrapped(*args, **kwargs)
@@ -246,6 +267,23 @@ def discovery_checks(ctx, rep, sigs):
                     continue
                 if shape_of(gotm) != shape_of(inner_sig):
                     rep.violation('C19:discover-method', '%s with inner%s: discovered %s, expected the parameters of inner' % (label, show_sig(d), show_sig(gotm)),
+                                  {'kind': 'discover', 'sig': d})
+            # a two-level chain: the bound callee is itself a forwarding wrapper whose own callee is a
+            # FURTHER bound positional, and the outer wrapper passes a statically unknown value of its
+            # own in front of *args (the placeholder keeps the positions of what follows)
+            for label, pc in (('partial(w_comp, w_skip, inner)', functools.partial(mod.w_comp, mod.w_skip, inner)),
+                              ('partial(w_comp_kw, w_skip_kw, inner)', functools.partial(mod.w_comp_kw, mod.w_skip_kw, inner))):
+                # (two wrappers that spell their callee parameter alike, e.g. partial(w_pos, w_pos, inner),
+                # are an incompatible pair for embed -- a same-named parameter -- and fall back: not generated)
+                n += 1
+                try:
+                    gotc = describe_sig(sigtools.signature(pc))
+                except Exception as e:  # noqa: BLE001
+                    rep.violation('C19:discover-chain', 'sigtools.signature(%s) raised %s for inner%s' % (label, classify_exc(e), show_sig(d)),
+                                  {'kind': 'discover', 'sig': d})
+                    continue
+                if shape_of(gotc) != shape_of(inner_sig):
+                    rep.violation('C19:discover-chain', '%s with inner%s: discovered %s, expected the parameters of inner' % (label, show_sig(d), show_sig(gotc)),
                                   {'kind': 'discover', 'sig': d})
             # keyword binding does not resolve the callee: plain partial signature
             p2 = functools.partial(mod.w_pos, callee=inner)
